@@ -310,3 +310,42 @@ func termVars(t *ast.SExpr, acc map[uint64]bool) {
 		acc[t.Atom.Var.Index] = true
 	}
 }
+
+
+// substCyclic: the binding graph of s (variable -> variables of its value, first binding per key as assv reads it) has a cycle.
+func substCyclic(s micro.Substitutions) bool {
+	first := map[uint64]*ast.SExpr{}
+	for _, p := range s {
+		if _, ok := first[p.Key]; !ok {
+			first[p.Key] = p.Value
+		}
+	}
+	state := map[uint64]int{} // 1 = on the stack, 2 = done
+	var visit func(x uint64) bool
+	visit = func(x uint64) bool {
+		switch state[x] {
+		case 1:
+			return true
+		case 2:
+			return false
+		}
+		state[x] = 1
+		if v, ok := first[x]; ok {
+			vs := map[uint64]bool{}
+			termVars(v, vs)
+			for y := range vs {
+				if visit(y) {
+					return true
+				}
+			}
+		}
+		state[x] = 2
+		return false
+	}
+	for k := range first {
+		if visit(k) {
+			return true
+		}
+	}
+	return false
+}
